@@ -17,7 +17,8 @@ PARS = ['\n\n', '\n \n', '\n\n\n', ' \n\t\n ', '\\par', '\\par ', '\n\\par\n', '
         '\n\n\n\n', '\n  \n  \n', 'BIB']
 
 VANISH = ['com', 'label', 'index', 'unk', 'unkarg', 'skip', 'tikz', 'ltskip', 'vanish2', 'unkenv_b', 'unkenv_e',
-          'lang', 'xspace']
+          'lang', 'xspace', 'vspace', 'ygap', 'ytodo']
+USERDEFS = '\\newcommand{\\ygap}[1]{ }\\newcommand{\\ytodo}[1]{% off\n}\n'
 
 
 def render(rnd, atoms, lang_ml=False):
@@ -91,6 +92,15 @@ def render(rnd, atoms, lang_ml=False):
             s += '\\end{zzenv}'
         elif k == 'lang':
             s += '\\selectlanguage{english}'
+        elif k == 'vspace':
+            # declared macro whose replacement is a blank
+            s += rnd.choice(['\\vspace{5mm}', '\\vspace*{1ex}'])
+            counts = True
+        elif k == 'ygap':
+            s += '\\ygap{hgQ}'        # user macro with a blank as body
+            counts = True
+        elif k == 'ytodo':
+            s += '\\ytodo{hgQ}'       # user macro whose body is a comment only
         elif k == 'xspace':
             s += '\\xspace'
             xpending = True
@@ -210,6 +220,8 @@ class C05(core.Check):
             pre = '\\newcommand{\\ym}[1]{#1}\n' if '\\ym' in opener else ''
             # a separator that starts directly with a letter-less construct is fine; one that starts with
             # nothing glues the words -- allowed, then counts stays False
+            if 'ygap' in atoms or 'ytodo' in atoms:
+                pre = USERDEFS + pre
             src = pre + 'wpre ' + opener + wa + tailctl + '}' + sep + wb + ' wpost'
             wa_out = wa
             return src, wa_out, wb, counts, haspar, atoms, tailctl + ('|optarg' if optarg else '')
@@ -218,6 +230,8 @@ class C05(core.Check):
             if haspar:
                 ctx = 'top'
         src = embed(rnd, ctx, wa, sep, wb, haspar)
+        if 'ygap' in atoms or 'ytodo' in atoms:
+            src = USERDEFS + src
         return src, wa, wb, counts, haspar, atoms, ''
 
     def judge(self, case):
